@@ -66,7 +66,7 @@ def pick_jobs(ctx, quick):
             b = block_of(f, ch)
             if b is None:
                 continue
-            nb = 11 if b <= 1024 else 7
+            nb = (11 if quick else 19) if b <= 1024 else (7 if quick else 11)
             jobs.append((f, ch, b, nb * b - b // 3))          # the last block is a partial one
     return jobs
 
@@ -225,6 +225,45 @@ def adpcm_reference(ctx, f, ch, filehex):
     return "".join(out), spb * nb
 
 
+# ---- C20: hand-built files of ADVERSARIAL blocks ("for any block bytes") through the same matrix ------------------------------------------------
+
+FOREIGN_GEOS = [("ima-wav", "wav", 1, 256), ("ima-wav", "wav", 2, 256), ("ima-wav", "w64", 2, 512), ("ima-wav", "wav", 1, 33), ("ima-wav", "w64", 1, 1024),
+                ("ms", "wav", 1, 256), ("ms", "wav", 2, 256), ("ms", "w64", 2, 70), ("ms", "wav", 1, 32), ("ms", "w64", 1, 1024),
+                ("ima-aiff", "aifc", 1, 34), ("ima-aiff", "aifc", 2, 34)]
+
+
+class _Stub:
+    """what matrix_script / the reports need of a format object"""
+    def __init__(self, name):
+        self.name, self.major, self.codec, self.word = name, 0x01, 0, 0
+
+
+def foreign_adpcm_tests(ctx):
+    """files the campaign builds itself (vlib/c20_adpcm.py: invalid step indices, extreme predictors, random nibbles; a fixed generator, no seed):
+    the reference stream is the REFERENCE decoder's output for the blocks the campaign made"""
+    import random
+    from . import c20_adpcm as A
+    rng = random.Random(20260930)
+    tests = []
+    for (kind, cont, ch, ba) in FOREIGN_GEOS:
+        blocks = {"ima-wav": lambda: A.ima_wav_blocks(rng, ch, ba, 10), "ms": lambda: A.ms_blocks(rng, ch, ba, 10), "ima-aiff": lambda: A.ima_aiff_blocks(rng, ch, 10)}[kind]()
+        blocks = blocks[:24]
+        if len(blocks) < 4:
+            continue
+        spb = A.spb_of(kind, ch, ba)
+        ref = A.model_lines(ctx, kind, ch, ba, blocks, True)
+        if len(ref) != len(blocks) or any(len(r) != spb * ch * 4 for r in ref):
+            continue
+        fb = A.build_file(kind, cont, ch, ba, b"".join(blocks), len(blocks))
+        F = spb * len(blocks)
+        f = _Stub("foreign-%s-%s-ba%d" % (kind, cont, ba))
+        t = dict(name="smf-%s-%s-c%d-ba%d" % (kind, cont, ch, ba), f=f, ch=ch, B=spb, F=F, tys=["s16"], refs={"s16": "".join(ref)}, seekable=True,
+                 filehex=fb.hex(), seqref=None, foreign=True)
+        t["script"] = matrix_script(f, ch, spb, F, t["filehex"], ["s16"], maxL=4)
+        tests.append(t)
+    return tests
+
+
 # ---- campaign -----------------------------------------------------------------------------------------------------------------------------
 
 def campaign(ctx, prop, quick=None):
@@ -267,7 +306,7 @@ def campaign(ctx, prop, quick=None):
             continue
         stats["files"] += 1
         t = dict(name=name, f=f, ch=ch, B=B, F=F, tys=tys, refs=dict(info["ref"]), seekable=info.get("seekable", True), filehex=info["filehex"])
-        t["script"] = matrix_script(f, ch, B, F, info["filehex"], tys, maxL=4 if B <= 1024 else 2)
+        t["script"] = matrix_script(f, ch, B, F, info["filehex"], tys, maxL=(4 if quick else 8) if B <= 1024 else (2 if quick else 4))
         if prop == "C20":
             ar = adpcm_reference(ctx, f, ch, info["filehex"])
             if ar is None:
@@ -280,6 +319,10 @@ def campaign(ctx, prop, quick=None):
                 t["tys"] = ["s16"]
                 t["script"] = matrix_script(f, ch, B, F, info["filehex"], ["s16"], maxL=4)
         tests.append(t)
+    if prop == "C20":
+        ft = foreign_adpcm_tests(ctx)
+        stats["adpcm_foreign_files"] = len(ft)
+        tests += ft
     res = ctx.batch([(t["name"], t["script"]) for t in tests], clean=True, op_timeout=40)
     judge = abslean.Judge(ctx, prop)
     for t in tests:
@@ -287,7 +330,7 @@ def campaign(ctx, prop, quick=None):
         lines = res.get(t["name"], [])
         t["lines"], t["start"] = lines, 2
         t["geom"] = abslean.geom_line(t["ch"], t["F"], "r", seekable=t["seekable"], bw=0)
-        t["opened"] = len(lines) > 1 and lines[1].startswith("open=ok")
+        t["opened"] = len(lines) > 1 and lines[1].startswith("open=ok") and ("frames=%d " % t["F"] in lines[1] + " " or not t.get("foreign"))
         if t["opened"]:
             judge.add(t["name"], t["geom"], t["refs"], None, abslean._alive_pairs(sl, lines, 2))
     verdicts = judge.run() if judge.items else {}
